@@ -82,6 +82,9 @@ func TestVerif_C09_engine(t *testing.T) {
 		r.BeginCase(id)
 		rng := r.CaseRNG(i)
 		cfg, variant := e3C09Config(rng, i)
+		if strings.HasSuffix(r.Sub, "race") {
+			cfg.MaxSteps = 4000
+		}
 		run := e3Execute(r, id, cfg, rng)
 		r.Eval(1)
 		nt, digest, sample := run.summary()
